@@ -183,6 +183,16 @@ def subpixel_case(arg):
             if not same_shift(rt, s, shape, tol):
                 out.append(("C13:torch:subpixel", f"{tag}: u={u}: returned {rt.tolist()} (tolerance {tol:.4f})"))
                 break
+        # a broadband (white) image rolled by whole pixels on this larger shape: exact for every factor
+        rngb = np.random.default_rng(idx + 7 * H + W)
+        wimg = rngb.integers(0, 50, size=shape).astype(float)
+        si = (int(round(s[0])) % H, int(round(s[1])) % W)
+        wb = np.roll(wimg, shift=(-si[0], -si[1]), axis=(0, 1))
+        for u in (1, 2, 3, 8, 16):
+            rw = np.asarray(cross_correlation_shift(wimg, wb, upsample_factor=u), float)
+            if not same_shift(rw, si, shape, 1e-6):
+                out.append((f"C13:numpy:integer-shift:upsample{'>1' if u > 1 else '=1'}", f"shape={shape} broadband image rolled by {si}: u={u}: returned {rw.tolist()}"))
+                break
         # identical band-limited images: zero for every factor
         for u in (1, 2, 3, 4, 5, 7, 8, 16, 64):
             z = np.asarray(cross_correlation_shift(img, img, upsample_factor=u), float)
@@ -244,7 +254,9 @@ def check(rep, tier, seed):
     # band-limited sub-pixel cases
     rng = random.Random(seed + 9)
     sub = []
-    big = [(8, 8), (9, 10), (12, 7), (6, 5)] if not quick else [(8, 8), (9, 10), (6, 5)]
+    # (sizes such as 14, 17, 24, 29, 47, 49 are those where k/n*n does not come back to k in floating point)
+    big = [(8, 8), (9, 10), (12, 7), (6, 5), (17, 14), (24, 29), (47, 18), (31, 48), (49, 49)] if not quick else \
+          [(8, 8), (9, 10), (6, 5), (17, 14), (24, 29), (47, 18)]
     for shape in big:
         for k in range(12 if quick else 60):
             par = {x: rng.randrange(3) for x in "abdegh"}
